@@ -48,11 +48,68 @@ def chain(kind, n, slot=0, tmp=1, via=0):
     return ops
 
 
+def gen_worker(rng, n):
+    ops = []
+    for _ in range(n):
+        r = rng.random()
+        if r < 0.30:
+            ops.append("as:%s:%s" % (loc(rng, 0.25), loc(rng, 0.45)))
+        elif r < 0.45:
+            ops.append("rs:%s" % loc(rng, 0.15))
+        elif r < 0.58:
+            ops.append("cc:%s:%s" % (loc(rng, 0.2), loc(rng, 0.4)))
+        elif r < 0.66:
+            ops.append("al:%s:%s" % (loc(rng, 0.2), loc(rng, 0.3)))
+        elif r < 0.80:
+            ops.append(("np:%d" if rng.random() < 0.7 else "nh:%d") % rng.randrange(S))
+        elif r < 0.88:
+            ops.append("sw:%s:%s" % (loc(rng, 0.3), loc(rng, 0.3)))
+        elif r < 0.93:
+            i = rng.randrange(S)
+            ops.append("as:s%d:m%d.%d" % (i, i, rng.randrange(K)))
+        elif r < 0.97:
+            ops.append("sv:%d:%d" % (rng.randrange(S), rng.choice([1, 7])))
+        else:
+            ops.append("dr")
+    return ops
+
+
+def gen_schedule(rng, T, n):
+    out, cur = [], rng.randrange(T)
+    for _ in range(n):
+        if rng.random() < 0.45:
+            cur = rng.randrange(T)
+        out.append(str(cur))
+    return ".".join(out)
+
+
+DROP = ["rs:s%d" % i for i in range(S)]
+
+
+def sched_case(rng):
+    N = rng.choice([1, 2, 2, 3])
+    mx = rng.choice([0, 0, 1, 3])
+    T = rng.choice([2, 2, 3])
+    kind = rng.choice(["np", "np", "nh"])
+    setup = []
+    shape = rng.randrange(4)
+    if shape == 0:      # one shared object
+        setup = [kind + ":0"]
+    elif shape == 1:    # a shared chain hanging off slot 0, plus a second shared object
+        setup = chain(kind, rng.choice([2, 3]), 0, 1, rng.randrange(K)) + ["np:2"]
+    elif shape == 2:    # two shared objects, one referenced from the other as well
+        setup = [kind + ":0", "np:1", "as:m0.1:s1", "al:s3:s1"]
+    else:
+        setup = gen_ops(rng, rng.choice([4, 8]), 0.7)
+    workers = [gen_worker(rng, rng.choice([2, 4, 6, 9])) + DROP for _ in range(T)]
+    return "S%d:%d:%d:%s|%s" % (N, mx, S, gen_schedule(rng, T, 80), "/".join([";".join(setup), ";".join(DROP)] + [";".join(w) for w in workers]))
+
+
 class CHECK(vlib.Check):
     prop = "C10"
     prop_file = "Properties_C10.v"
     model = ("Conc/RefExtract.v", "refcnt_driver.ml", "refcnt", ("ocommon.ml",))
-    harness = dict(name="refcnt", src="refcnt_h.cpp", san="asan", link_lib=True)
+    harness = dict(name="refcnt", src="refcnt_h.cpp", san="asan", link_lib=True, extra_srcs=["/verif/harness/sched/sched.cpp"])
     modelled = ("util/RefCount.h: ConstRef/Ref SetRef (switch-items branch, and the same-item branch converting a reference between counting and non-counting in both directions), operator=, Reset/"
                 "SetStatus, UnrefItem/UnrefItemAux (decrement-and-test, recycle or delete, cascade through member Refs), "
                 "SwapContents / move assignment, CastAwayConstFromRef, IsRefPrivate; system/AtomicCounter.h increment / "
@@ -71,7 +128,7 @@ class CHECK(vlib.Check):
             "_maxPoolSize 0..4; after EVERY operation the destruction/recycle/obtain events in order, every object's state, "
             "count, payload, members and birth/death counters, the stack, and the pool's slab order, free lists, "
             "_numNodesInUse, _nextIndex arrays and _curPoolSize are compared with the extracted model; the harness's own "
-            "ideal reference graph is the oracle.  Non-trivial = the history stores into a member slot and later drops or "
+            "ideal reference graph is the oracle.  Multi-threaded histories (2-3 worker threads started with copies of the main thread's references, random programs x random and exhaustive schedules) run under the controlled scheduler (decision points: the AtomicCounter increment/decrement and Mutex lock hooks); the sequence (thread resumed, atomic step executed) and the complete final state must equal the model's run of the same schedule.  Non-trivial = the history stores into a member slot and later drops or "
             "overwrites a reference (so a release can cascade), or obtains from the pool more objects than one slab holds.") % (S, K)
 
     def gen_cases(self, rng, tier):
@@ -83,6 +140,15 @@ class CHECK(vlib.Check):
             length = rng.choice([4, 8, 12, 20, 30, 45])
             pooled_p = rng.choice([0.0, 0.5, 0.8, 1.0])
             out.append(("random", "%d:%d:%d|%s" % (N, mx, S, ";".join(gen_ops(rng, length, pooled_p)))))
+        # multi-threaded histories under the controlled scheduler: random programs x random schedules
+        for i in range(250 if tier == "quick" else 4000):
+            out.append(("sched-random", sched_case(rng)))
+        # every schedule (all 2^9 decision strings) of two workers that drop / copy / advance on a shared chain
+        for progs in ("np:0;np:1;as:m0.0:s1;rs:s1/rs:s0/as:s0:m0.0;rs:s0/rs:s0",
+                      "nh:0/rs:s0/as:s1:s0;rs:s0;rs:s1/cc:s1:s0;rs:s1;rs:s0",
+                      "np:0/rs:s0/rs:s0;np:0;rs:s0/rs:s0;np:1;rs:s1"):
+            for bits in range(512):
+                out.append(("sched-exhaustive", "S2:0:%d:%s|%s" % (S, ".".join(str((bits >> j) & 1) for j in range(9)), progs)))
         # directed: the list-advance idiom (F11) over chains of 2..4 objects, heap and pooled
         for kind in ("nh", "np"):
             for N in (1, 2, 3):
@@ -120,6 +186,8 @@ class CHECK(vlib.Check):
         return out
 
     def nontrivial(self, case):
+        if case.startswith("S"):
+            return case.count("/") >= 3
         body = case.split("|", 1)[1]
         ops = body.split(";")
         stores = any(o.startswith(("as:m", "cc:m", "sw:m", "al:m")) or (o.startswith("sw:") and ":m" in o) for o in ops)
@@ -131,7 +199,8 @@ class CHECK(vlib.Check):
         for s, c in sc:
             d["stream:" + s] = d.get("stream:" + s, 0) + 1
             hdr, body = c.split("|", 1)
-            d["hdr:N=%s" % hdr.lstrip("M").split(":")[0]] = d.get("hdr:N=%s" % hdr.lstrip("M").split(":")[0], 0) + 1
+            hk = "hdr:N=%s" % hdr.lstrip("MS").split(":")[0]
+            d[hk] = d.get(hk, 0) + 1
             for o in body.replace("/", ";").split(";"):
                 if o:
                     k = "op:" + o.split(":")[0]
